@@ -210,6 +210,58 @@ def for_loops(s):
     return out
 
 
+def loop_exits(s, l):
+    """edges leaving the loop: (from block, to block)"""
+    out = []
+    for b in l['blocks']:
+        for x in s.cfg.succ[b]:
+            if x in s.cfg.nodes and x not in l['blocks'] and s.body.blocks[x]['term'].get('k') != 'unreachable':
+                out.append((b, x))
+    return out
+
+
+def ctrl_blocks(s, l):
+    """the loop header and the block that switches on the iterator's Option (the exhaustion test)"""
+    out = {l['header']}
+    nr = norm(l['next']['result'])
+    for b in l['blocks']:
+        c = s.switches.get(b)
+        if c is not None and c[0] == 'discr' and norm(c[1]) == nr:
+            out.add(b)
+    return out
+
+
+
+def break_exits(s, l):
+    """`break`-like exits of a for loop: edges leaving the loop from a block other than the exhaustion test whose
+    target flows into the code after the loop (a `return` inside the loop does not: it bypasses the code after it)."""
+    ctrl = ctrl_blocks(s, l)
+    exits = loop_exits(s, l)
+    normal = {t for a, t in exits if a in ctrl}
+    out = []
+    for a, t in exits:
+        if a in ctrl:
+            continue
+        if not normal:
+            out.append((a, t))
+            continue
+        reach = s.cfg.reachable_from(t)
+        if t in normal or any(n in reach for n in normal):
+            out.append((a, t))
+    return out
+
+
+def require_no_break(ctx, R, s, l, key, what, consequence):
+    """rule instance: the loop `what` of function `key` is left only by exhaustion (or by a return)"""
+    brk = sorted({a for a, _ in break_exits(s, l)})
+    w = where(s.body, l['next']['line'])
+    if brk:
+        ctx.violation(R, key + ':early-exit', 'the loop over %s is left by a `break` (block(s) %s) before it is exhausted: %s' % (what, brk, consequence), w)
+        return False
+    ctx.ok(R, '%s: the loop over %s runs to exhaustion' % (key.split('::')[-1], what), w)
+    return True
+
+
 def enum_paths(s, start, stop_blocks, limit=20000):
     """all acyclic paths from block `start` to any block of stop_blocks (exclusive), as lists of
     (block, taken successor). Loops are not entered (edges into loop headers other than stop are cut)."""
